@@ -3,6 +3,8 @@
 (* Code -> specification for C03: events from btclib.ecc.ssa recomputed.   *)
 (*  {op:"sign",   c, hf, sk, m, aux, out}      64-byte signature           *)
 (*  {op:"verify", c, hf, x, m, r, s, out}      BIP340 verification verdict *)
+(*  {op:"s2c", c, hf, sk, m, aux, value, out, receipt}  a signature that    *)
+(*        commits to a value, and the receipt that opens it                 *)
 (*  {op:"batch",  c, hf, items:[{x,m,r,s}], out}                           *)
 (*        Batch verification answers TRUE exactly when every member        *)
 (*        verifies (at real size a lucky coefficient has probability       *)
@@ -15,6 +17,10 @@ Expected(e) ==
     CASE e.op = "sign" ->
             LET sg == Sign(c, hf, N(e.sk), FromHex(e.m), FromHex(e.aux))
             IN [ok |-> sg.ok /\ ToHex(SigBytes(c, sg)) = e.out, want |-> ToHex(SigBytes(c, sg))]
+      [] e.op = "s2c" ->
+            LET sg == S2CSign(c, hf, N(e.sk), FromHex(e.m), FromHex(e.aux), FromHex(e.value))
+            IN [ok |-> sg.ok /\ ToHex(SigBytes(c, sg)) = e.out /\ sg.receipt = PtOf(e.receipt) /\ S2COpens(c, hf, sg.r, sg.receipt, FromHex(e.value)),
+                want |-> <<ToHex(SigBytes(c, sg)), sg.receipt>>]
       [] e.op = "verify" ->
             LET v == Verify(c, hf, N(e.x), FromHex(e.m), N(e.r), N(e.s)) IN [ok |-> v = e.out, want |-> v]
       [] e.op = "batch" ->
